@@ -301,7 +301,7 @@ KNOWN = {'F8': known_two_sided}
 
 
 @st.composite
-def multi_case(draw):
+def multi_case(draw, lossy_prob=3):
     dyadic = draw(st.sampled_from([False, True, False]))
     w0 = draw(st.sampled_from([1.0, 0.5, 2.0, 64.0, 0.25])) if dyadic else draw(st.sampled_from([0.1, 0.3, 50.0, 2 * math.pi * 50, 314.0, 0.7, 1000.0 / 3]))
     # frequencies offered to the sources: the base frequency (for the periodic sources, so that harmonics exist) and
@@ -314,7 +314,7 @@ def multi_case(draw):
         # coincidence only to within the frequency resolution (1e-3 rad/s), on either side of a rounding boundary
         others = [others[0] + draw(st.sampled_from([4e-4, 6e-4, -3e-4, 7.5e-4, -5.5e-4, 2e-4]))] + others
     spec = draw(cc.circuit(2, 5, 8, source_kinds_v=('dc_voltage_source', 'ac_voltage_source', 'periodic_voltage_source', 'periodic_voltage_source'),
-                           source_kinds_i=('dc_current_source', 'ac_current_source', 'periodic_current_source'), w_pool=[w0], lossy_prob=3,
+                           source_kinds_i=('dc_current_source', 'ac_current_source', 'periodic_current_source'), w_pool=[w0], lossy_prob=lossy_prob,
                            min_sources=2, forced_lossy=False,
                            passive=['resistor', 'resistor', 'conductance', 'capacitor', 'capacitor', 'inductance', 'inductance', 'lamp']))
     srcs = [c for c in spec['components'] if c['kind'] in cc.SOURCE_KINDS]
